@@ -1120,6 +1120,20 @@ def _ds_vol_inv(e):
     return [C03_inputs._all_pending_ok(e, e.vol_paths, I(e.i)), C03_inputs._distinct(e, e.vol_paths)]
 
 
+def _ds_finish(c, outcome, args, old):
+    """A glob pattern never matches a path that a step builds, also for a step that comes back through full recycling:
+    patterns can be registered while the step is detached (register_nglob looks at attached products only), so the
+    pattern-side check runs on every path, before the recycling decision."""
+    if outcome[0] != "return":
+        return
+    t = c.trace
+    checks = [e for e in t if e.kind == "call" and e.callee == "Workflow._raise_if_glob_match"]
+    rec = [e for e in t if e.kind == "call" and e.callee == "Trellis.try_recycle"]
+    c.prove("products_are_checked_against_the_globs_once", tm.mk_bool(len(checks) == 1), kind="trace", detail=f"{len(checks)} call(s)")
+    if len(checks) == 1 and rec:
+        c.prove("the_glob_check_precedes_the_recycling_decision", tm.mk_bool(checks[0].index < rec[0].index), kind="trace")
+
+
 @contract("stepup/core/workflow.py::Workflow.define_step", props=["C08"])
 class define_step:
     """On the path that creates a new step: the step label is free, every output and volatile output is unclaimed
@@ -1134,6 +1148,7 @@ class define_step:
                set=lambda *a: C03_inputs._amend_set(*a) if a else ty.SetOf(C03_inputs.FileH).empty())
     may_raise = {GraphError: None, ConsistencyError: None, ValueError: None}
     modifies = []
+    finish = _ds_finish
     # the set of File objects built from the rows of UNCONFIRMED_INPUTS (recycle branch): some set of files
     setup = lambda args: cur().data.__setitem__("comp_hook", lambda kind, f, q, cond: (
         ty.SetOf(C03_inputs.FileH).fresh(cur().fresh_name("unconfirmed_inputs")) if kind == "set" else NotImplemented))
